@@ -28,6 +28,7 @@ from ..engine import (
     kwarg,
     norm,
     qualname_of,
+    stmt_of,
     walk_no_nested,
 )
 from ..report import Report
@@ -421,11 +422,24 @@ def run(repo: Repo, R: Report) -> None:
     R.check(ok, r_sig, SEM, "normalize_expression_sig_v1", norm(parse[0]) if parse else "ast.parse(expr)", "the signature is not computed from the expression text as given", sigfn.lineno)
     dumps = [c for c in calls_in(sigfn) if call_attr(c) == "_dump_ast_commutative"]
     ok = False
+    tree_names: set = set()
     if len(dumps) == 1 and dumps[0].args:
         a = dumps[0].args[0]
         tree_names = {t.id for n in walk_no_nested(sigfn) if isinstance(n, ast.Assign) and n.value in parse for t in n.targets if isinstance(t, ast.Name)}
         ok = (isinstance(a, ast.Attribute) and a.attr == "body" and isinstance(a.value, ast.Name) and a.value.id in tree_names) or (isinstance(a, ast.Name) and a.id in tree_names)
+    if not ok and len(dumps) == 1 and dumps[0].args:
+        a = dumps[0].args[0]
+        a = a.value if isinstance(a, ast.Attribute) and a.attr == "body" else a
+        ok = a in parse
     R.check(ok, r_sig, SEM, "normalize_expression_sig_v1", norm(dumps[0]) if dumps else "_dump_ast_commutative(tree.body)", "the normaliser is not applied to the whole parsed expression", sigfn.lineno)
+    # the parsed tree reaches the normaliser untouched: its only uses are its definition and the normaliser argument
+    if len(dumps) == 1:
+        allowed = {id(x) for x in ast.walk(dumps[0])}
+        stray = [n for n in walk_no_nested(sigfn) if isinstance(n, ast.Name) and n.id in tree_names and isinstance(n.ctx, ast.Load) and id(n) not in allowed]
+        for n in stray:
+            R.violation(r_sig, SEM, "normalize_expression_sig_v1", norm(stmt_of(n)), "the parsed tree is read or rewritten before it reaches the normaliser (the signature is no longer that of the expression as written)", n.lineno)
+        if not stray:
+            R.ok(r_sig, SEM, "normalize_expression_sig_v1", "uses of the parsed tree: definition and normaliser argument only")
     # returned mapping carries the dump under "ast"
     for r in [n for n in walk_no_nested(sigfn) if isinstance(n, ast.Return)]:
         v = r.value
